@@ -722,207 +722,7 @@ func runC17(c *Ctx) {
 	}
 
 	// ---------- R3 setstat application ----------
-	type app struct {
-		callee string
-		args   []string // field names of FileStat (or accessor names) in order
-	}
-	wantApp := map[int64]app{
-		1: {"Truncate", []string{"Size"}},
-		4: {"Chmod", []string{"FileMode"}},
-		2: {"Chown", []string{"UID", "GID"}},
-		8: {"Chtimes", []string{"AccessTime", "ModTime"}},
-	}
-	tables := map[string]map[int64]string{}
-	for _, name := range []string{"(*sshFxpSetstatPacket).respond", "(*sshFxpFsetstatPacket).respond"} {
-		fn := p.Func(name)
-		if fn == nil {
-			c.missing("R3", name)
-			continue
-		}
-		c.looked(name)
-		tables[name] = map[int64]string{}
-		for _, b := range fn.Blocks {
-			iff, ok := b.Instrs[len(b.Instrs)-1].(*ssa.If)
-			if !ok {
-				continue
-			}
-			cmp, ok := iff.Cond.(*ssa.BinOp)
-			if !ok || cmp.Op != token.NEQ {
-				continue
-			}
-			and, ok := cmp.X.(*ssa.BinOp)
-			if !ok || and.Op != token.AND {
-				continue
-			}
-			k, ok := constInt(and.Y)
-			if !ok {
-				continue
-			}
-			isFlags := false
-			for _, l := range leavesOf(and.X) {
-				if l.Kind == leafFieldLoad && l.Field == "Flags" {
-					isFlags = true
-				}
-			}
-			if !isFlags {
-				continue
-			}
-			// calls in the region of the true edge (up to the next flag test)
-			region := regionOf(fn, b.Succs[0])
-			var descr []string
-			for rb := range region {
-				// stop at blocks that test another flag: those are dominated too only if nested; the ladder is sequential so they are not
-				for _, in := range rb.Instrs {
-					cc := callOf(in)
-					if cc == nil {
-						continue
-					}
-					nm := calleeName(cc)
-					switch nm {
-					case "Truncate", "Chmod", "Chown", "Chtimes":
-					default:
-						continue
-					}
-					var args []string
-					for _, a := range argsOf(cc) {
-						d := "?"
-						for _, l := range leavesOf(a) {
-							switch l.Kind {
-							case leafFieldLoad:
-								if typeName(l.Base.Type()) == "FileStat" {
-									d = l.Field
-								}
-							case leafCallResult:
-								switch calleeName(l.Call) {
-								case "FileMode", "AccessTime", "ModTime":
-									d = calleeName(l.Call)
-								case "toLocalPath", "Name":
-									d = "path"
-								}
-							case leafParam:
-								d = "path"
-							}
-						}
-						if d == "?" && isBasicKind(types.String)(a.Type()) {
-							d = "path" // no attribute is a string: the name of the file, wherever it is kept
-						}
-						if d == "path" || d == "?" {
-							// the path/handle argument is not part of the attribute pairing
-							if d == "?" {
-								args = append(args, d)
-							}
-							continue
-						}
-						args = append(args, d)
-					}
-					descr = append(descr, nm+"("+strings.Join(args, ",")+")")
-				}
-			}
-			sort.Strings(descr)
-			// dedupe (Fsetstat has two Chtimes alternatives)
-			uniq := []string{}
-			for _, d := range descr {
-				if len(uniq) == 0 || uniq[len(uniq)-1] != d {
-					uniq = append(uniq, d)
-				}
-			}
-			tables[name][k] = strings.Join(uniq, ";")
-			// applied only while nothing before it has failed: for every earlier fallible step (the attribute decode, the
-			// other setters) that can be followed by this one, its error is tested on the way here and the side on which
-			// it is not nil does not come here — whether that is written `err == nil && flag…` or as early returns
-			okErr := true
-			isStep := func(cc *ssa.CallCommon) bool {
-				switch calleeName(cc) {
-				case "Truncate", "Chmod", "Chown", "Chtimes", "unmarshalFileStat":
-					return true
-				}
-				return false
-			}
-			var mine []ssa.Instruction
-			for rb := range region {
-				for _, in := range rb.Instrs {
-					if cc := callOf(in); cc != nil && isStep(cc) && calleeName(cc) != "unmarshalFileStat" {
-						mine = append(mine, in)
-					}
-				}
-			}
-			for _, s := range mine {
-				for _, e := range callsWhere(fn, isStep) {
-					if e == s || !reachAvoiding(fn, e, func(x ssa.Instruction) bool { return x == s }, nil) {
-						continue
-					}
-					// the error of e and the variables it flows into
-					vals := map[ssa.Value]bool{}
-					ev := e.(ssa.Value)
-					if _, isTuple := ev.Type().(*types.Tuple); isTuple {
-						for _, r := range *ev.Referrers() {
-							if ex, ok := r.(*ssa.Extract); ok && ex.Type().String() == "error" {
-								vals[ex] = true
-							}
-						}
-					} else {
-						vals[ev] = true
-					}
-					for changed := true; changed; {
-						changed = false
-						for v := range vals {
-							for _, r := range *v.Referrers() {
-								if ph, ok := r.(*ssa.Phi); ok && !vals[ph] {
-									vals[ph] = true
-									changed = true
-								}
-							}
-						}
-					}
-					var tests []nilTest
-					for v := range vals {
-						tests = append(tests, nilTests(v)...)
-					}
-					isTest := func(x ssa.Instruction) bool {
-						for _, t := range tests {
-							if ssa.Instruction(t.iff) == x {
-								return true
-							}
-						}
-						return false
-					}
-					if reachAvoiding(fn, e, func(x ssa.Instruction) bool { return x == s }, isTest) {
-						okErr = false // a path from the earlier step to this one that never looks at its error
-					}
-					for _, t := range tests {
-						if blockReaches(e.Block(), t.iff.Block()) && reachFromNilSide(t, true, func(x ssa.Instruction) bool { return x == s }, nil) {
-							// the failing side comes here — unless that test lies after this step (a later iteration has none here)
-							if !reachAvoiding(fn, s, func(x ssa.Instruction) bool { return x == ssa.Instruction(t.iff) }, nil) || dominates(t.iff, s) {
-								okErr = false
-							}
-						}
-					}
-				}
-			}
-			c.check(okErr, "R3", fmt.Sprintf("%s flag %#x applied only while err == nil", name, k), pos(iff), "earlier failure stops the ladder", "an attribute is applied although an earlier step failed (its error is then overwritten)")
-		}
-		for k, w := range wantApp {
-			want := w.callee + "(" + strings.Join(w.args, ",") + ")"
-			got := tables[name][k]
-			c.check(got == want, "R3", fmt.Sprintf("%s flag %#x", name, k), p.Pos(fn.Pos()), got, fmt.Sprintf("under attribute flag %#x the server performs %q, expected %s: a set-attributes request changes the wrong attribute", k, got, want))
-		}
-		for k := range tables[name] {
-			if _, ok := wantApp[k]; !ok {
-				c.bad("R3", fmt.Sprintf("%s flag %#x", name, k), p.Pos(fn.Pos()), "an attribute flag outside SIZE/UIDGID/PERMISSIONS/ACMODTIME triggers a change")
-			}
-		}
-	}
-	if len(tables) == 2 {
-		a, b := tables["(*sshFxpSetstatPacket).respond"], tables["(*sshFxpFsetstatPacket).respond"]
-		same := len(a) == len(b)
-		for k, v := range a {
-			if b[k] != v {
-				same = false
-			}
-		}
-		c.check(same, "R3", "SETSTAT and FSETSTAT agree", "server.go", "sibling handlers apply the same table", fmt.Sprintf("SETSTAT applies %v but FSETSTAT applies %v", a, b))
-		checkSetstatTargetsAndOrder(c, "R3")
-	}
+	checkSetstatApplication(c, true)
 	checkAttrFlagBits(c, "R3")
 
 	// ---------- R4 client setters ----------
@@ -1580,5 +1380,215 @@ func checkAttrFlagBits(c *Ctx, rule string) {
 		}
 	} else {
 		c.missing(rule, "newFileAttrFlags")
+	}
+}
+
+// checkSetstatApplication (C17.R3; shared as C05.R15): what each attribute flag of SETSTAT/FSETSTAT makes the os server do.
+func checkSetstatApplication(c *Ctx, withTargetsAndOrder bool) {
+	p := c.P
+	pos := func(in ssa.Instruction) string { return p.Pos(in.Pos()) }
+	_ = pos
+	type app struct {
+		callee string
+		args   []string // field names of FileStat (or accessor names) in order
+	}
+	wantApp := map[int64]app{
+		1: {"Truncate", []string{"Size"}},
+		4: {"Chmod", []string{"FileMode"}},
+		2: {"Chown", []string{"UID", "GID"}},
+		8: {"Chtimes", []string{"AccessTime", "ModTime"}},
+	}
+	tables := map[string]map[int64]string{}
+	for _, name := range []string{"(*sshFxpSetstatPacket).respond", "(*sshFxpFsetstatPacket).respond"} {
+		fn := p.Func(name)
+		if fn == nil {
+			c.missing("R3", name)
+			continue
+		}
+		c.looked(name)
+		tables[name] = map[int64]string{}
+		for _, b := range fn.Blocks {
+			iff, ok := b.Instrs[len(b.Instrs)-1].(*ssa.If)
+			if !ok {
+				continue
+			}
+			cmp, ok := iff.Cond.(*ssa.BinOp)
+			if !ok || cmp.Op != token.NEQ {
+				continue
+			}
+			and, ok := cmp.X.(*ssa.BinOp)
+			if !ok || and.Op != token.AND {
+				continue
+			}
+			k, ok := constInt(and.Y)
+			if !ok {
+				continue
+			}
+			isFlags := false
+			for _, l := range leavesOf(and.X) {
+				if l.Kind == leafFieldLoad && l.Field == "Flags" {
+					isFlags = true
+				}
+			}
+			if !isFlags {
+				continue
+			}
+			// calls in the region of the true edge (up to the next flag test)
+			region := regionOf(fn, b.Succs[0])
+			var descr []string
+			for rb := range region {
+				// stop at blocks that test another flag: those are dominated too only if nested; the ladder is sequential so they are not
+				for _, in := range rb.Instrs {
+					cc := callOf(in)
+					if cc == nil {
+						continue
+					}
+					nm := calleeName(cc)
+					switch nm {
+					case "Truncate", "Chmod", "Chown", "Chtimes":
+					default:
+						continue
+					}
+					var args []string
+					for _, a := range argsOf(cc) {
+						d := "?"
+						for _, l := range leavesOf(a) {
+							switch l.Kind {
+							case leafFieldLoad:
+								if typeName(l.Base.Type()) == "FileStat" {
+									d = l.Field
+								}
+							case leafCallResult:
+								switch calleeName(l.Call) {
+								case "FileMode", "AccessTime", "ModTime":
+									d = calleeName(l.Call)
+								case "toLocalPath", "Name":
+									d = "path"
+								}
+							case leafParam:
+								d = "path"
+							}
+						}
+						if d == "?" && isBasicKind(types.String)(a.Type()) {
+							d = "path" // no attribute is a string: the name of the file, wherever it is kept
+						}
+						if d == "path" || d == "?" {
+							// the path/handle argument is not part of the attribute pairing
+							if d == "?" {
+								args = append(args, d)
+							}
+							continue
+						}
+						args = append(args, d)
+					}
+					descr = append(descr, nm+"("+strings.Join(args, ",")+")")
+				}
+			}
+			sort.Strings(descr)
+			// dedupe (Fsetstat has two Chtimes alternatives)
+			uniq := []string{}
+			for _, d := range descr {
+				if len(uniq) == 0 || uniq[len(uniq)-1] != d {
+					uniq = append(uniq, d)
+				}
+			}
+			tables[name][k] = strings.Join(uniq, ";")
+			// applied only while nothing before it has failed: for every earlier fallible step (the attribute decode, the
+			// other setters) that can be followed by this one, its error is tested on the way here and the side on which
+			// it is not nil does not come here — whether that is written `err == nil && flag…` or as early returns
+			okErr := true
+			isStep := func(cc *ssa.CallCommon) bool {
+				switch calleeName(cc) {
+				case "Truncate", "Chmod", "Chown", "Chtimes", "unmarshalFileStat":
+					return true
+				}
+				return false
+			}
+			var mine []ssa.Instruction
+			for rb := range region {
+				for _, in := range rb.Instrs {
+					if cc := callOf(in); cc != nil && isStep(cc) && calleeName(cc) != "unmarshalFileStat" {
+						mine = append(mine, in)
+					}
+				}
+			}
+			for _, s := range mine {
+				for _, e := range callsWhere(fn, isStep) {
+					if e == s || !reachAvoiding(fn, e, func(x ssa.Instruction) bool { return x == s }, nil) {
+						continue
+					}
+					// the error of e and the variables it flows into
+					vals := map[ssa.Value]bool{}
+					ev := e.(ssa.Value)
+					if _, isTuple := ev.Type().(*types.Tuple); isTuple {
+						for _, r := range *ev.Referrers() {
+							if ex, ok := r.(*ssa.Extract); ok && ex.Type().String() == "error" {
+								vals[ex] = true
+							}
+						}
+					} else {
+						vals[ev] = true
+					}
+					for changed := true; changed; {
+						changed = false
+						for v := range vals {
+							for _, r := range *v.Referrers() {
+								if ph, ok := r.(*ssa.Phi); ok && !vals[ph] {
+									vals[ph] = true
+									changed = true
+								}
+							}
+						}
+					}
+					var tests []nilTest
+					for v := range vals {
+						tests = append(tests, nilTests(v)...)
+					}
+					isTest := func(x ssa.Instruction) bool {
+						for _, t := range tests {
+							if ssa.Instruction(t.iff) == x {
+								return true
+							}
+						}
+						return false
+					}
+					if reachAvoiding(fn, e, func(x ssa.Instruction) bool { return x == s }, isTest) {
+						okErr = false // a path from the earlier step to this one that never looks at its error
+					}
+					for _, t := range tests {
+						if blockReaches(e.Block(), t.iff.Block()) && reachFromNilSide(t, true, func(x ssa.Instruction) bool { return x == s }, nil) {
+							// the failing side comes here — unless that test lies after this step (a later iteration has none here)
+							if !reachAvoiding(fn, s, func(x ssa.Instruction) bool { return x == ssa.Instruction(t.iff) }, nil) || dominates(t.iff, s) {
+								okErr = false
+							}
+						}
+					}
+				}
+			}
+			c.check(okErr, "R3", fmt.Sprintf("%s flag %#x applied only while err == nil", name, k), pos(iff), "earlier failure stops the ladder", "an attribute is applied although an earlier step failed (its error is then overwritten)")
+		}
+		for k, w := range wantApp {
+			want := w.callee + "(" + strings.Join(w.args, ",") + ")"
+			got := tables[name][k]
+			c.check(got == want, "R3", fmt.Sprintf("%s flag %#x", name, k), p.Pos(fn.Pos()), got, fmt.Sprintf("under attribute flag %#x the server performs %q, expected %s: a set-attributes request changes the wrong attribute", k, got, want))
+		}
+		for k := range tables[name] {
+			if _, ok := wantApp[k]; !ok {
+				c.bad("R3", fmt.Sprintf("%s flag %#x", name, k), p.Pos(fn.Pos()), "an attribute flag outside SIZE/UIDGID/PERMISSIONS/ACMODTIME triggers a change")
+			}
+		}
+	}
+	if len(tables) == 2 {
+		a, b := tables["(*sshFxpSetstatPacket).respond"], tables["(*sshFxpFsetstatPacket).respond"]
+		same := len(a) == len(b)
+		for k, v := range a {
+			if b[k] != v {
+				same = false
+			}
+		}
+		c.check(same, "R3", "SETSTAT and FSETSTAT agree", "server.go", "sibling handlers apply the same table", fmt.Sprintf("SETSTAT applies %v but FSETSTAT applies %v", a, b))
+		if withTargetsAndOrder {
+			checkSetstatTargetsAndOrder(c, "R3")
+		}
 	}
 }
